@@ -7,7 +7,7 @@ From Coq Require Import List Arith Lia Bool ZArith.
 Import ListNotations.
 From Exmex.Model Require Import Base EvalBinary Lexer Flat Deep.
 From Exmex.Spec Require Import RefSem.
-From Exmex.Proofs Require Import Vars DeepVars Pev PevFold DeepSem DeepSubs DeepParse C03Main FlSem.
+From Exmex.Proofs Require Import Vars DeepVars Pev PevFold DeepSem DeepSubs C11Main DeepParse C03Main FlSem WalkSim Accept.
 Open Scope nat_scope.
 
 Section Unparse.
@@ -61,7 +61,7 @@ Lemma utoks_unfold nodes bops uop vars :
 Proof.
   destruct nodes as [|n0 ntl]; [reflexivity|]. cbn [utoks body_toks].
   match goal with |- _ ++ (_ ++ ?F ntl bops) ++ _ = _ => assert (E : forall l ops, F l ops = rtoks l ops) end.
-  { induction l as [|n tl IH]; intros ops; [reflexivity|]. destruct ops as [|o otl]; [reflexivity|]. cbn [rtoks]. rewrite <- IH. destruct n; reflexivity. }
+  { induction l as [|n tl IH]; intros ops; [reflexivity|]. destruct ops as [|o otl]; [reflexivity|]. simpl. rewrite IH. destruct n; reflexivity. }
   rewrite E. destruct n0; reflexivity.
 Qed.
 
@@ -120,16 +120,16 @@ Proof. induction n as [|n IH]; [reflexivity|]. cbn [repeat render flat_map tok_t
 Lemma render_open us : render (flat_map (fun k => [TOp k; TOpen]) us) = flat_map (fun k => repr_of tb k ++ [LPAR]) us.
 Proof.
   induction us as [|u us IH]; [reflexivity|]. cbn [flat_map]. rewrite render_app, IH. unfold render. cbn [flat_map tok_text app].
-  rewrite app_nil_r. reflexivity.
+  rewrite ?app_nil_r, <- ?app_assoc. reflexivity.
 Qed.
 Theorem unparse_is_render : forall e, dwf okop okvar okvars e -> unparse C tb e = Some (render (utoks e)).
 Proof.
   induction e as [nodes bops uop vars IH] using deep_ind. intros Hwf. rewrite dwf_unfold in Hwf. destruct Hwf as (Hlen & _ & _ & Hn).
   assert (Hnode : forall n, In n nodes -> node_str n = Some (render (ntoks n))).
   { intros n Hin. rewrite Forall_forall in Hn. specialize (Hn n Hin). destruct n as [e'|d|i x]; cbn [node_str ntoks nwf] in *.
-    - rewrite (IH e' Hin Hn). destruct (duop e'); [|reflexivity]. unfold render. cbn [flat_map tok_text app]. rewrite flat_map_app. cbn [flat_map tok_text]. rewrite app_nil_r. reflexivity.
-    - unfold render. cbn. rewrite app_nil_r. reflexivity.
-    - unfold render. cbn [flat_map tok_text]. rewrite app_nil_r. reflexivity. }
+    - rewrite (IH e' Hin Hn). destruct (duop e'); [|reflexivity]. change (TOpen :: utoks e' ++ [TClose]) with ([TOpen] ++ utoks e' ++ [TClose]). rewrite !render_app. reflexivity.
+    - unfold render. cbn [flat_map tok_text]. rewrite ?app_nil_r. reflexivity.
+    - unfold render. cbn [flat_map tok_text]. rewrite ?app_nil_r. reflexivity. }
   rewrite unparse_unfold, utoks_unfold. destruct nodes as [|n0 ntl]; [cbn in Hlen; discriminate|].
   rewrite (Hnode n0 (or_introl eq_refl)).
   assert (Hgo : forall l ops acc, length l = length ops -> (forall n, In n l -> node_str n = Some (render (ntoks n))) ->
@@ -138,11 +138,238 @@ Proof.
     destruct ops as [|o otl]; [discriminate|]. cbn [go_str rtoks]. rewrite (Hs n (or_introl eq_refl)).
     rewrite (IHl otl _ ltac:(cbn in Hl; lia) (fun m Hm => Hs m (or_intror Hm))).
     f_equal. change (TOp (bidx o) :: ntoks n ++ rtoks tl otl) with ([TOp (bidx o)] ++ ntoks n ++ rtoks tl otl).
-    rewrite !render_app. unfold render at 2. cbn [flat_map tok_text]. rewrite app_nil_r, <- !app_assoc. reflexivity. }
+    rewrite !render_app. change (render [TOp (bidx o)]) with (repr_of tb (bidx o) ++ []). rewrite ?app_nil_r, <- ?app_assoc. reflexivity. }
   rewrite (Hgo ntl bops _ ltac:(cbn in Hlen; lia) (fun m Hm => Hnode m (or_intror Hm))).
   f_equal. cbn [body_toks]. destruct uop as [|u us].
   - cbn [flat_map length repeat app]. rewrite app_nil_r, render_app. reflexivity.
   - rewrite !render_app, render_open, render_close. reflexivity.
 Qed.
 End Structure.
+
+(* ---- the surface tree of a deep expression ---- *)
+Fixpoint wrapu (us : list nat) (a0 : atom (D:=D)) (rest : list (nat * atom (D:=D))) : atom (D:=D) :=
+  match us with
+  | [] => AGroup [] a0 rest
+  | u :: us' => match us' with [] => AGroup [u] a0 rest | _ => AGroup [u] (wrapu us' a0 rest) [] end
+  end.
+Fixpoint eatom (e : deepex D) : atom (D:=D) :=
+  match e with
+  | DE nodes bops uop _ =>
+      match nodes with
+      | [] => wrapu uop (ALeaf [] (LNum (dflt C))) []
+      | n0 :: ntl =>
+          wrapu uop
+            (match n0 with DNum d => ALeaf [] (LNum d) | DVar _ x => ALeaf [] (LVar x) | DExpr e' => eatom e' end)
+            ((fix go (l : list (dnode D)) (ops : list dbop) : list (nat * atom (D:=D)) :=
+                match l, ops with
+                | n :: tl, o :: otl =>
+                    (bidx o, match n with DNum d => ALeaf [] (LNum d) | DVar _ x => ALeaf [] (LVar x) | DExpr e' => eatom e' end) :: go tl otl
+                | _, _ => []
+                end) ntl bops)
+      end
+  end.
+Definition natom (n : dnode D) : atom (D:=D) :=
+  match n with DNum d => ALeaf [] (LNum d) | DVar _ x => ALeaf [] (LVar x) | DExpr e' => eatom e' end.
+Fixpoint rrest (l : list (dnode D)) (ops : list dbop) : list (nat * atom (D:=D)) :=
+  match l, ops with n :: tl, o :: otl => (bidx o, natom n) :: rrest tl otl | _, _ => [] end.
+Lemma eatom_unfold n0 ntl bops uop vars : eatom (DE (n0 :: ntl) bops uop vars) = wrapu uop (natom n0) (rrest ntl bops).
+Proof.
+  cbn [eatom].
+  match goal with |- wrapu uop _ (?F ntl bops) = _ => assert (E : forall l ops, F l ops = rrest l ops) end.
+  { induction l as [|n tl IH]; intros ops; [reflexivity|]. destruct ops as [|o otl]; [reflexivity|]. simpl. rewrite IH. destruct n; reflexivity. }
+  rewrite E. destruct n0; reflexivity.
+Qed.
+Definition chain_of (e : deepex D) : chain (D:=D) :=
+  match e with
+  | DE (n0 :: ntl) bops [] _ => (natom n0, rrest ntl bops)
+  | _ => (eatom e, [])
+  end.
+
+(* rendering *)
+Lemma flatten_wrapu us a0 rest :
+  flatten_atom (wrapu us a0 rest) =
+  match us with
+  | [] => TOpen :: flatten_atom a0 ++ flatten_rest rest ++ [TClose]
+  | _ => flat_map (fun k => [TOp k; TOpen]) us ++ flatten_atom a0 ++ flatten_rest rest ++ repeat TClose (length us)
+  end.
+Proof.
+  induction us as [|u us IH]; [cbn [wrapu]; rewrite flatten_atom_group; reflexivity|].
+  cbn [wrapu]. destruct us as [|u2 us2].
+  - rewrite flatten_atom_group. cbn. rewrite <- ?app_assoc. reflexivity.
+  - rewrite flatten_atom_group, IH. set (m := u2 :: us2). cbn [map flatten_rest app].
+    change (flat_map (fun k : nat => [@TOp D k; TOpen]) (u :: m)) with ([@TOp D u; TOpen] ++ flat_map (fun k : nat => [@TOp D k; TOpen]) m).
+    change (length (u :: m)) with (S (length m)). rewrite <- !app_assoc. cbn [app]. do 2 f_equal. do 3 f_equal.
+    change (TClose :: nil) with (repeat (@TClose D) 1). rewrite <- repeat_app. f_equal. lia.
+Qed.
+
+Section Tree.
+Variable okop : dbop -> Prop.
+Variable okvar : nat -> str -> Prop.
+Variable okvars : list str -> Prop.
+Theorem utoks_is_flatten : forall e, dwf okop okvar okvars e ->
+  flatten_atom (eatom e) = (match duop e with [] => TOpen :: utoks e ++ [TClose] | _ => utoks e end) /\
+  flatten (chain_of e) = utoks e.
+Proof.
+  induction e as [nodes bops uop vars IH] using deep_ind. intros Hwf. rewrite dwf_unfold in Hwf. destruct Hwf as (Hlen & _ & _ & Hn).
+  assert (Hnode : forall n, In n nodes -> flatten_atom (natom n) = ntoks n).
+  { intros n Hin. rewrite Forall_forall in Hn. specialize (Hn n Hin). destruct n as [e'|d|i x]; cbn [natom ntoks nwf] in *; try reflexivity.
+    exact (proj1 (IH e' Hin Hn)). }
+  destruct nodes as [|n0 ntl]; [cbn in Hlen; discriminate|].
+  assert (Hrest : forall l ops, (forall n, In n l -> flatten_atom (natom n) = ntoks n) -> flatten_rest (rrest l ops) = rtoks l ops).
+  { induction l as [|n tl IHl]; intros ops Hs; [reflexivity|]. destruct ops as [|o otl]; [reflexivity|].
+    cbn [rrest flatten_rest rtoks]. rewrite (Hs n (or_introl eq_refl)), (IHl otl (fun m Hm => Hs m (or_intror Hm))). reflexivity. }
+  assert (Hbody : flatten_atom (natom n0) ++ flatten_rest (rrest ntl bops) = body_toks (n0 :: ntl) bops).
+  { cbn [body_toks]. rewrite (Hnode n0 (or_introl eq_refl)), (Hrest ntl bops (fun m Hm => Hnode m (or_intror Hm))). reflexivity. }
+  rewrite eatom_unfold, flatten_wrapu, utoks_unfold. cbn [duop]. split.
+  - destruct uop as [|u us].
+    + cbn [flat_map length repeat app]. rewrite app_nil_r, <- Hbody, <- app_assoc. reflexivity.
+    + rewrite <- Hbody, <- !app_assoc. reflexivity.
+  - unfold chain_of. destruct uop as [|u us].
+    + unfold flatten. cbn [fst snd flat_map length repeat app]. rewrite app_nil_r. exact Hbody.
+    + unfold flatten. cbn [fst snd flatten_rest]. rewrite app_nil_r, eatom_unfold, flatten_wrapu, <- Hbody, <- !app_assoc. reflexivity.
+Qed.
+End Tree.
+
+(* ---- well-formedness of the tree: binary operators from the table, unary operators unary ---- *)
+Fixpoint uok (e : deepex D) : Prop :=
+  match e with
+  | DE nodes _ uop _ =>
+      forallb (is_un tb) uop = true /\
+      (fix all (l : list (dnode D)) : Prop := match l with [] => True | n :: tl => (match n with DExpr c => uok c | _ => True end) /\ all tl end) nodes
+  end.
+Definition nuok (n : dnode D) : Prop := match n with DExpr c => uok c | _ => True end.
+Lemma uok_unfold nodes bops uop vars : uok (DE nodes bops uop vars) <-> forallb (is_un tb) uop = true /\ Forall nuok nodes.
+Proof.
+  cbn [uok].
+  assert (H : (fix all (l : list (dnode D)) : Prop := match l with [] => True | n :: tl => (match n with DExpr c => uok c | _ => True end) /\ all tl end) nodes <-> Forall nuok nodes).
+  { induction nodes as [|n tl IH]; [split; [constructor|trivial]|]. split.
+    - intros [H1 H2]. constructor; [exact H1|apply IH; exact H2].
+    - intros H. inversion H; subst. split; [assumption|apply IH; assumption]. }
+  rewrite H. reflexivity.
+Qed.
+Lemma wf_wrapu us a0 rest : forallb (is_un tb) us = true -> wf_atom tb a0 = true -> wf_rest tb rest = true -> wf_atom tb (wrapu us a0 rest) = true.
+Proof.
+  intros Hu Ha Hr. induction us as [|u us IH]; [cbn [wrapu]; rewrite wf_group, Ha, Hr; reflexivity|].
+  cbn [forallb] in Hu. apply andb_prop in Hu. destruct Hu as [Hu1 Hu2]. cbn [wrapu]. destruct us as [|u2 us2].
+  - rewrite wf_group. cbn [forallb]. rewrite Hu1, Ha, Hr. reflexivity.
+  - rewrite wf_group. cbn [forallb wf_rest]. rewrite Hu1, (IH Hu2). reflexivity.
+Qed.
+Section WfTree.
+Variable okvar : nat -> str -> Prop.
+Variable okvars : list str -> Prop.
+Theorem chain_of_wf : forall e, dwf (flagged tb) okvar okvars e -> uok e -> wf_atom tb (eatom e) = true /\ wf_chain tb (chain_of e) = true.
+Proof.
+  induction e as [nodes bops uop vars IH] using deep_ind. intros Hwf Hu. rewrite dwf_unfold in Hwf. destruct Hwf as (Hlen & _ & Hf & Hn).
+  rewrite uok_unfold in Hu. destruct Hu as [Hu1 Hu2].
+  assert (Hnode : forall n, In n nodes -> wf_atom tb (natom n) = true).
+  { intros n Hin. rewrite Forall_forall in Hn, Hu2. specialize (Hn n Hin). specialize (Hu2 n Hin).
+    destruct n as [e'|d|i x]; cbn [natom nwf nuok] in *; try reflexivity. exact (proj1 (IH e' Hin Hn Hu2)). }
+  destruct nodes as [|n0 ntl]; [cbn in Hlen; discriminate|].
+  assert (Hrest : forall l ops, (forall n, In n l -> wf_atom tb (natom n) = true) -> (forall o, In o ops -> flagged tb o) -> wf_rest tb (rrest l ops) = true).
+  { induction l as [|n tl IHl]; intros ops Hs Ho; [reflexivity|]. destruct ops as [|o otl]; [reflexivity|].
+    cbn [rrest wf_rest]. rewrite (proj2 (proj2 (from_table_entry tb o (Ho o (or_introl eq_refl))))), (Hs n (or_introl eq_refl)).
+    rewrite (IHl otl (fun m Hm => Hs m (or_intror Hm)) (fun o' Ho' => Ho o' (or_intror Ho'))). reflexivity. }
+  pose proof (Hrest ntl bops (fun m Hm => Hnode m (or_intror Hm)) Hf) as Hr.
+  pose proof (Hnode n0 (or_introl eq_refl)) as H0.
+  assert (Ha : wf_atom tb (eatom (DE (n0 :: ntl) bops uop vars)) = true) by (rewrite eatom_unfold; apply wf_wrapu; assumption).
+  split; [exact Ha|]. unfold chain_of, wf_chain. destruct uop; cbn [fst snd wf_rest]; [rewrite H0, Hr|rewrite Ha]; reflexivity.
+Qed.
+End WfTree.
+
+(* ---- the reference value of the tree is the denotation, variables by name ---- *)
+Section TreeValue.
+Variable vars : list str.
+Variable vals : list D.
+Definition look_name : nat -> str -> D := fun _ x => nth (var_pos vars x) vals (dflt C).
+Variable okvar : nat -> str -> Prop.
+Variable okvars : list str -> Prop.
+Lemma ref_wrapu us a0 rest :
+  ref_atom C tb vars vals (wrapu us a0 rest) = apply_un C us (prec C tb (length rest) (ref_atom C tb vars vals a0) (ref_rest C tb vars vals rest)).
+Proof.
+  induction us as [|u us IH]; [cbn [wrapu]; apply ref_atom_group|].
+  cbn [wrapu]. destruct us as [|u2 us2]; [apply ref_atom_group|].
+  rewrite ref_atom_group, IH. reflexivity.
+Qed.
+Lemma from_table_dop (o : dbop) : flagged tb o -> dop tb (bidx o) = o.
+Proof.
+  intros H. destruct (from_table_entry tb o H) as (H1 & H2 & _). destruct o as [p i c]. unfold dop. cbn [bidx bprio bcomm] in *. rewrite H1, H2. reflexivity.
+Qed.
+Theorem tree_value : forall e, dwf (flagged tb) okvar okvars e ->
+  ref_atom C tb vars vals (eatom e) = dden C look_name e /\ ref_chain C tb vars vals (chain_of e) = dden C look_name e.
+Proof.
+  induction e as [nodes bops uop vs IH] using deep_ind. intros Hwf. rewrite dwf_unfold in Hwf. destruct Hwf as (Hlen & _ & Hf & Hn).
+  assert (Hnode : forall n, In n nodes -> ref_atom C tb vars vals (natom n) = nden C look_name n).
+  { intros n Hin. rewrite Forall_forall in Hn. specialize (Hn n Hin). destruct n as [e'|d|i x]; cbn [natom nden nwf] in *; try reflexivity.
+    exact (proj1 (IH e' Hin Hn)). }
+  destruct nodes as [|n0 ntl]; [cbn in Hlen; discriminate|].
+  assert (Hrest : forall l ops, length l = length ops -> (forall n, In n l -> ref_atom C tb vars vals (natom n) = nden C look_name n) ->
+            (forall o, In o ops -> flagged tb o) ->
+            map snd (ref_rest C tb vars vals (rrest l ops)) = map (nden C look_name) l /\
+            map (dop tb) (map fst (ref_rest C tb vars vals (rrest l ops))) = ops).
+  { induction l as [|n tl IHl]; intros ops Hl Hs Ho; [destruct ops; [split; reflexivity|discriminate]|].
+    destruct ops as [|o otl]; [discriminate|]. cbn [rrest ref_rest map fst snd].
+    destruct (IHl otl ltac:(cbn in Hl; lia) (fun m Hm => Hs m (or_intror Hm)) (fun o' Ho' => Ho o' (or_intror Ho'))) as [E1 E2].
+    rewrite E1, E2, (Hs n (or_introl eq_refl)), (from_table_dop o (Ho o (or_introl eq_refl))). split; reflexivity. }
+  destruct (Hrest ntl bops ltac:(cbn in Hlen; lia) (fun m Hm => Hnode m (or_intror Hm)) Hf) as [E1 E2].
+  assert (Hlevel : prec C tb (length (rrest ntl bops)) (ref_atom C tb vars vals (natom n0)) (ref_rest C tb vars vals (rrest ntl bops)) =
+                   level_val C (map (nden C look_name) (n0 :: ntl)) bops).
+  { rewrite <- (ref_rest_length C tb vars vals (rrest ntl bops)).
+    rewrite <- (level_val_prec C tb [] [] eq_refl). cbn [map]. rewrite E1, E2, (Hnode n0 (or_introl eq_refl)). reflexivity. }
+  rewrite dden_unfold. split.
+  - rewrite eatom_unfold, ref_wrapu, Hlevel. reflexivity.
+  - unfold chain_of. destruct uop as [|u us].
+    + unfold ref_chain. cbn [fst snd]. rewrite Hlevel. reflexivity.
+    + unfold ref_chain. cbn [fst snd length ref_rest]. rewrite eatom_unfold, ref_wrapu, Hlevel. reflexivity.
+Qed.
+End TreeValue.
+
+(* ---- printing and parsing back ---- *)
+Section RoundTrip.
+Variable R : D -> D -> Prop.
+Hypothesis R_refl : forall a, R a a.
+Hypothesis R_sym : forall a b, R a b -> R b a.
+Hypothesis R_trans : forall a b c, R a b -> R b c -> R a c.
+Hypothesis R_bin : forall k a a' b b', R a a' -> R b b' -> R (binf C k a b) (binf C k a' b').
+Hypothesis R_un : forall k a a', R a a' -> R (unf C k a) (unf C k a').
+Hypothesis table_assoc : forall o, comm_of tb o = true -> forall a b c, R (binf C o (binf C o a b) c) (binf C o a (binf C o b c)).
+
+Theorem print_parse_tokens (okvar : nat -> str -> Prop) (okvars : list str -> Prop) (e : deepex D) :
+  dwf (flagged tb) okvar okvars e -> uok e ->
+  unparse C tb e = Some (render (utoks e)) /\
+  forall vals, length vals = length (find_parsed_vars (utoks e)) ->
+  exists e' v, parse_deep_tokens C tb (utoks e) = Ok e' /\ dvars e' = find_parsed_vars (utoks e) /\
+               eval_deep C e' vals = Ok v /\ R v (dden C (look_name (find_parsed_vars (utoks e)) vals) e).
+Proof.
+  intros Hwf Hu. split; [exact (unparse_is_render (flagged tb) okvar okvars e Hwf)|].
+  intros vals Hl. destruct (utoks_is_flatten (flagged tb) okvar okvars e Hwf) as [_ Hfl].
+  destruct (chain_of_wf okvar okvars e Hwf Hu) as [_ Hwc].
+  rewrite <- Hfl in *.
+  destruct (deep_parse_is_reference C tb R R_refl R_sym R_trans R_bin R_un table_assoc (chain_of e) vals Hwc Hl) as (e' & v & Hp & Hv & He & Hr).
+  exists e', v. split; [unfold parse_deep_tokens; rewrite (rendering_accepted tb (chain_of e) Hwc); cbn [bind]; rewrite Hp; reflexivity|].
+  split; [exact Hv|]. split; [exact He|].
+  rewrite (proj2 (tree_value (find_parsed_vars (flatten (chain_of e))) vals okvar okvars e Hwf)) in Hr. exact Hr.
+Qed.
+
+(* when every listed variable occurs in the printed text: the same variables, the same value at every assignment *)
+Theorem print_parse_same (e : deepex D) :
+  dindexed (flagged tb) (dvars e) e -> uok e -> dvars e = find_parsed_vars (utoks e) ->
+  exists e', parse_deep_tokens C tb (utoks e) = Ok e' /\ dvars e' = dvars e /\
+    forall vals, length vals = length (dvars e) ->
+    exists v v', eval_deep C e vals = Ok v /\ eval_deep C e' vals = Ok v' /\ R v' v.
+Proof.
+  intros Hi Hu Hv. pose proof Hi as [Hwf _].
+  destruct (print_parse_tokens _ _ e Hwf Hu) as [_ Hp].
+  destruct (Hp (map (fun _ => dflt C) (dvars e)) ltac:(rewrite map_length, Hv; reflexivity)) as (e' & _ & He' & Hd' & _ & _).
+  exists e'. split; [exact He'|]. split; [congruence|]. intros vals Hl.
+  destruct (Hp vals ltac:(rewrite <- Hv; exact Hl)) as (e'' & v' & He'' & _ & Hev & Hr). rewrite He' in He''. inversion He''; subst e''.
+  destruct (eval_consistent C R R_refl R_sym R_trans R_bin R_un (flagged tb) (flagged_op_assoc C tb R table_assoc) (dvars e) vals e Hi Hl) as (v & Ev & Rv).
+  exists v, v'. split; [exact Ev|]. split; [exact Hev|].
+  eapply R_trans; [exact Hr|]. apply R_sym. rewrite <- Hv.
+  assert (E : dden C (look_name (dvars e) vals) e = dden C (nlook (env_of C (dvars e) vals)) e).
+  { change (look_name (dvars e) vals) with (nlook (fun x => nth (var_pos (dvars e) x) vals (dflt C))).
+    apply (ddenN_ext C (flagged tb) (dvars e)); [|exact (dindexed_closed (flagged tb) _ _ Hi)].
+    intros x Hx. unfold env_of, var_pos. destruct (index_of_complete x (dvars e) 0 Hx) as [j Hj]. rewrite Hj. reflexivity. }
+  rewrite E. exact Rv.
+Qed.
+End RoundTrip.
 End Unparse.
